@@ -842,7 +842,7 @@ def widen(case, cs):
 def run_shard(rep, tier, seed, shard, nshards):
     warnings.filterwarnings("ignore")
     dl = Deadline(budget(tier, 60, 900))
-    for k in range(budget(tier, 250, 6000)):
+    for k in range(budget(tier, 500, 6000)):
         if dl.expired():
             break
         cs = f"{seed}/C08/{shard}/{k}"
